@@ -18,7 +18,7 @@ From Verif Require Import Py PyExt Shape COO GCXS NpJoin G_join S_join Join Extr
 Import ListNotations.
 Open Scope Z_scope.
 
-Definition darr_of (c : coo Z) : darr Z := mkD (c_shape c) (den c).
+Definition darr_of (c : coo Z) : darr Z := darr_of_coo c.
 
 (* a member in any format as the canonical COO that `COO(x)` / `x.tocoo()` / `as_coo(x)` yields *)
 Definition canon (c : coo Z) : coo Z :=
@@ -35,6 +35,7 @@ Definition member_coo (a : sarr) : option (coo Z) :=
 
 Definition is_gcxs (a : sarr) : bool := match a with SGcxs _ => true | _ => false end.
 Definition is_coo (a : sarr) : bool := match a with SCoo _ => true | _ => false end.
+Definition is_dok (a : sarr) : bool := match a with SDok _ _ _ => true | _ => false end.
 
 Fixpoint all_some {A} (l : list (option A)) : option (list A) :=
   match l with
@@ -80,7 +81,9 @@ Definition decide (dom : bool) (clause : Z) (model_ok : bool) (spec : option (da
 (* ------------------------------------------------------------------ concatenate / stack
    case: (op (0 concatenate, 1 stack), axis (None only for concatenate), compressed_axes argument,
           members as the implementation saw them, result)
-   clause 11: every member is a GCXS and axis=None (the GCXS joiner does not support it) *)
+   clauses: 11 every member is a GCXS and axis=None (the GCXS joiner does not support it);
+   18 concatenate with axis=None and a DOK member (DOK has no flatten); 19 stack of 0-d members
+   that are not all COO (0-d DOK / GCXS cannot be converted / reshaped) *)
 Definition join_case := (Z * option Z * option (list Z) * list sarr * sarr)%type.
 
 Definition gcxs_members (ms : list sarr) : option (list (gcxs Z)) :=
@@ -129,8 +132,13 @@ Definition judge_join (c : join_case) : Z :=
                         else match axis with
                              | Some ax => coo_stack_src Z Z.eqb 0 Z.add ax ms
                              | None => Raise TypeError end) r in
-      let dom := negb (all_g && match axis with None => true | _ => false end) in
-      decide dom 11 model_ok spec (c_fill a) r
+      let axis_none := match axis with None => true | _ => false end in
+      let clause :=
+        if all_g && axis_none then 11
+        else if (op =? 0) && axis_none && existsb is_dok members then 18
+        else if (op =? 1) && (length (c_shape a) =? 0)%nat && negb (forallb is_coo members) then 19
+        else 0 in
+      decide (clause =? 0) clause model_ok spec (c_fill a) r
   end.
 
 (* branch tag of a join case: 0 COO joiner sorted flag true, 1 COO joiner constructor sorts,
@@ -185,8 +193,8 @@ Definition judge_tri (c : tri_case) : Z :=
 
 (* ------------------------------------------------------------------ diagonal
    case: (offset, axis1, axis2, input, result); axis1, axis2 denote different axes, in range.
-   clauses: 13 D5_negative_offset, 14 D5_nonzero_fill, 15 diagonal_nonsquare (extents of the two
-   axes differ), 16 diagonal_negative_axis, 12 input is not a COO *)
+   clauses: 15 diagonal_nonsquare (extents of the two axes differ), 16 diagonal_negative_axis,
+   12 input is not a COO *)
 Definition diag_case := (Z * Z * Z * sarr * sarr)%type.
 
 Definition judge_diag (c : diag_case) : Z :=
@@ -202,10 +210,9 @@ Definition judge_diag (c : diag_case) : Z :=
       let m := coo_diagonal_src Z Z.eqb 0 Z.add x offset axis1 axis2 in
       let clause :=
         if negb (is_coo inp) then 12
-        else if negb (D5_nonzero_fill Z Z.eqb 0 x) then 14
         else if negb (diagonal_nonsquare (c_shape x) axis1 axis2) then 15
         else if negb (diagonal_negative_axis axis1 axis2) then 16
-        else if negb (D5_negative_offset offset) then 13 else 0 in
+        else 0 in
       let model_ok := if is_coo inp then model_coo_ok m r else true in
       (* the Spec's fill is the input's fill (np.diagonal keeps every value) *)
       decide (clause =? 0) clause model_ok (Some spec) (c_fill x) r
@@ -214,7 +221,8 @@ Definition judge_diag (c : diag_case) : Z :=
   end.
 
 (* ------------------------------------------------------------------ diagonalize
-   case: (axis, input, result); clause 17 D14_nonzero_fill *)
+   case: (axis, input, result).  A non-zero fill is rejected with ValueError (documented, as for
+   triu / tril): there the implementation must do what the model does. *)
 Definition diagz_case := (Z * sarr * sarr)%type.
 
 Definition judge_diagz (c : diagz_case) : Z :=
@@ -225,11 +233,9 @@ Definition judge_diagz (c : diagz_case) : Z :=
     match np_norm_axis axis (Z.of_nat (length (c_shape x))) with
     | None => match r with SExc _ => 0 | _ => 2 end
     | Some k =>
-      let spec := np_diagonalize 0 k (darr_of x) in
       let m := coo_diagonalize_src Z Z.eqb 0 Z.add x axis in
-      let dom := D14_nonzero_fill Z Z.eqb 0 x in
-      (* off the diagonal the Spec's value is 0, so a faithful sparse result has fill 0 *)
-      decide dom 17 (model_coo_ok m r) (Some spec) 0 r
+      if negb (c_fill x =? 0) then (if model_coo_ok m r then 0 else 1) else
+      decide true 0 (model_coo_ok m r) (Some (np_diagonalize 0 k (darr_of x))) 0 r
     end
   end.
 
